@@ -53,6 +53,13 @@ def UriOK (u : List Char) : Prop := (∃ c r, u = c :: r ∧ c ≠ '\t') ∧ ∀
 /-- a marker text as printed: starts with a non-blank character and is accepted by the marker recogniser -/
 def MarkerOK (m : List Char) (syn : Syn) : Prop := skipWs m = m ∧ parseText (String.ofList m) = .ok syn
 
+/-- the optional marker text and the tree the recogniser must return for it -/
+def TailOK (mo : Option (List Char)) (so : Option Syn) : Prop :=
+  match mo, so with
+  | none, none => True
+  | some m, some syn => MarkerOK m syn
+  | _, _ => False
+
 /-! ### small facts -/
 
 theorem skipWs_nonblank (c : Char) (r : List Char) (h1 : c ≠ ' ') (h2 : c ≠ '\t') : skipWs (c :: r) = c :: r := by
@@ -232,14 +239,14 @@ theorem SpecTok.ne_nil {t : List Char} (h : SpecTok t) : t ≠ [] := by
 /-! ### tail -/
 
 theorem takeTail_marker (mo : Option (List Char)) (so : Option Syn)
-    (h : match mo, so with | none, none => True | some m, some syn => MarkerOK m syn | _, _ => False) :
+    (h : TailOK mo so) :
     takeTail (markerText mo) = some so := by
   cases mo with
   | none => cases so with
     | none => rfl
-    | some _ => exact absurd h (by simp)
+    | some _ => exact absurd h (by simp [TailOK])
   | some m => cases so with
-    | none => exact absurd h (by simp)
+    | none => exact absurd h (by simp [TailOK])
     | some syn =>
       obtain ⟨h1, h2⟩ : MarkerOK m syn := h
       have e1 : skipWs (' ' :: ';' :: ' ' :: m) = ';' :: ' ' :: m := by
@@ -259,7 +266,7 @@ theorem markerText_skip (mo : Option (List Char)) :
 name and extras, printed spec tokens and an accepted marker text gives exactly these pieces -/
 theorem parseRaw_registry (name : List Char) (es ts : List (List Char)) (mo : Option (List Char)) (so : Option Syn)
     (hn : Ident name) (he : ∀ e ∈ es, Ident e) (ht : ∀ t ∈ ts, SpecTok t)
-    (hm : match mo, so with | none, none => True | some m, some syn => MarkerOK m syn | _, _ => False) :
+    (hm : TailOK mo so) :
     parseRaw (name ++ extrasText es ++ specsText ts ++ markerText mo) =
       some (mkRaw name es (match ts with | [] => none | _ => some ts) none so) := by
   -- the text after the name
@@ -325,10 +332,10 @@ theorem parseRaw_registry (name : List Char) (es ts : List (List Char)) (mo : Op
     | none =>
       cases so with
       | none => simp [parseRest, takeOp, takeTail, skipWs, mkRaw]
-      | some _ => exact absurd hm (by simp)
+      | some _ => exact absurd hm (by simp [TailOK])
     | some m =>
       cases so with
-      | none => exact absurd hm (by simp)
+      | none => exact absurd hm (by simp [TailOK])
       | some syn =>
         have hm' : MarkerOK m syn := hm
         have e2 : skipWs (' ' :: m) = m := by simp only [skipWs]; exact hm'.1
@@ -351,7 +358,7 @@ theorem parseRaw_registry (name : List Char) (es ts : List (List Char)) (mo : Op
 /-- **the recogniser reads a printed direct-reference requirement back**: `name[extras] @ url ; marker` -/
 theorem parseRaw_url (name : List Char) (es : List (List Char)) (u : List Char) (mo : Option (List Char)) (so : Option Syn)
     (hn : Ident name) (he : ∀ e ∈ es, Ident e) (hu : UriOK u)
-    (hm : match mo, so with | none, none => True | some m, some syn => MarkerOK m syn | _, _ => False) :
+    (hm : TailOK mo so) :
     parseRaw (name ++ extrasText es ++ urlText (some u) ++ markerText mo) = some (mkRaw name es none (some u) so) := by
   have hstop : NameStop (extrasText es ++ urlText (some u) ++ markerText mo) := by
     intro c q hq
